@@ -69,6 +69,8 @@ pub fn idle_lines() -> Vec<&'static str> {
         "INPUT X",
         "FOR X=X TO Y STEP X",
         // commands followed by text (the command processor looks at the first word)
+        // deleting lines (one of them holds the DATA a cursor may point into)
+        "80",
         "LIST 30-10",
         "LIST 18446744073709551615,0",
         "RUN 30",
